@@ -107,6 +107,14 @@ CLAIMED["C15"] = (
     "C15_order_of_mentions_irrelevant, C15_source_order); distinct positions give distinct variables. Not theorems (Go scoping and runtime facts, observed on every run instead): evaluation on the calling goroutine "
     "before any task starts, and absence of capture. Known finding F9 (an expression mentioning an enclosing `err`) is reported as KNOWN-FINDING from a named probe.",
     GEN_NOTE + " The capture clause is refuted by probe F9 on the unchanged tree (recorded, not repaired: the repair moves the prologue out of the closure and changes every generated file).", "DESIGN.md §7 C15")
+CLAIMED["C18"] = (
+    "Coq proof about a model of cff.EmitterStack (nested-inductive expressions, flattening) and about the event function of the operational flow model + correspondence: the real EmitterStack driven through every method on generated nestings with shared sub-stacks; every event of every generated execution recorded and checked",
+    "EmitterStack: for every expression, nested to any depth, a call reaches exactly the user emitters of the expression, in order; an emitter occurring once receives exactly the event sequence it would receive "
+    "alone, one occurring n times every event n times (C18_stack_fanout, C18_stack_alone, C18_stack_count). Flow events, for every flow/scenario/execution the scheduler can produce: an invoked task function "
+    "yields exactly one outcome event matching what it did and exactly one TaskDone, a non-invoked one neither (C18_task_invoked, C18_task_not_invoked); exactly one Success/Error carrying the returned error, "
+    "FlowDone once and last, TaskSkipped exactly once per non-invoked task and never for an invoked one (C18_flow_outcome_once, C18_flow_done_last, C18_skipped_once). Tie: 18 methods of the 4 emitter kinds with "
+    "payload identity on the real stack; recorded events of generated flows with one or two stacked emitters under all single-failure scenarios.",
+    GEN_NOTE + " Parallel directives' events are covered with C10.", "DESIGN.md §7 C18")
 CLAIMED["C11"] = (GEN_TECH,
     "For every flow, scenario, task and valuation: predicate false => the task function is not called, its outputs are the zero values and it cannot fail the flow "
     "(C11_false_*); the function is invoked only if there is no predicate or it returned true (C11_invoked_only_if_true); the predicate is called with exactly the values of "
